@@ -23,3 +23,85 @@ func VerifC02CodeSig(p *Program) string {
 	})
 	return fmt.Sprintf("%d:%x", n, h.Sum64())
 }
+
+// VerifC02AllocReport is the outcome of VerifC02AllocCheck.
+type VerifC02AllocReport struct {
+	Scopes        int      // scopes discovered
+	Funcs         int      // function scopes discovered
+	Bindings      int      // bindings examined
+	StashBindings int      // ... placed in a stash (or in a dynamic scope)
+	StackBindings int      // ... placed in a stack slot
+	CrossRefs     int      // (binding, accessing scope) pairs that cross a function boundary
+	Stashed       []string // names of the stash-allocated bindings of non-dynamic scopes
+	Violations    []string // cross-function accesses to a stack-allocated binding
+}
+
+// VerifC02AllocCheck compiles src (top-level lexical declarations in their own scope) and reads the compiler's own scope analysis back: for
+// every binding reachable from the top scope (through nested block scopes and through the scopes recorded
+// as access points of known bindings) it checks goja's allocation rule — a binding that is accessed from
+// a scope belonging to a different function than the one that declares it must be in a stash (or its
+// scope must be dynamic).  This is the rule `valid_alloc` of the C02 model, evaluated on goja's actual
+// decision.  Add-only: nothing of the compiler is modified.
+func VerifC02AllocCheck(src string) (rep VerifC02AllocReport, err error) {
+	prg, err := Parse("", src)
+	if err != nil {
+		return rep, err
+	}
+	c := newCompiler()
+	defer func() {
+		if x := recover(); x != nil {
+			if se, ok := x.(*CompilerSyntaxError); ok {
+				err = se
+				return
+			}
+			panic(x)
+		}
+	}()
+	// inGlobal=false gives the top-level lexical declarations a block scope of their own, so that they are
+	// ordinary statically resolved bindings (global ones are looked up by name and record no access points)
+	c.compile(prg, false, false, nil)
+	root := c.scope
+	seen := map[*scope]bool{}
+	var queue []*scope
+	add := func(s *scope) {
+		for ; s != nil && !seen[s]; s = s.outer {
+			seen[s] = true
+			queue = append(queue, s)
+		}
+	}
+	add(root)
+	for len(queue) > 0 {
+		s := queue[0]
+		queue = queue[1:]
+		rep.Scopes++
+		if s.isFunction() {
+			rep.Funcs++
+		}
+		for _, n := range s.nested {
+			add(n)
+		}
+		fb := s.nearestFunction()
+		for _, b := range s.bindings {
+			rep.Bindings++
+			inStash := b.inStash || s.isDynamic()
+			if inStash {
+				rep.StashBindings++
+				if !s.isDynamic() {
+					rep.Stashed = append(rep.Stashed, string(b.name))
+				}
+			} else {
+				rep.StackBindings++
+			}
+			for sc := range b.accessPoints {
+				add(sc)
+				if sc.nearestFunction() != fb {
+					rep.CrossRefs++
+					if !inStash {
+						rep.Violations = append(rep.Violations, fmt.Sprintf("binding %q is accessed from an inner function but lives in a stack slot", string(b.name)))
+					}
+				}
+			}
+		}
+	}
+	return rep, nil
+}
